@@ -544,6 +544,20 @@ class C09(VerdictProp):
     assumptions = ["Go channel, select and defer semantics are assumed (modelled as atomic steps); quiescence is reached by bounded polling"]
 
 
+class C16(VerdictProp):
+    id = "C16"
+    n_quick = 300
+    n_thorough = 6000
+    batch = 1000
+    required_theorems = ["C16_shape", "C16_safe", "C16_monotone", "C16_live", "C16_first_error_once"]
+    rule = ("random histories on the real pugjs.Startup + controllers.Ready (via httptest): k in 0..6 (thorough 0..12) processes registered, a random permutation as "
+            "completion order, each completion failing with probability 1/3, a quarter of the histories leaving some processes running, Finish at a random position (or "
+            "never), a probe after EVERY operation (immediate status and, when every process has returned and Finish was called, the status after bounded polling), three "
+            "probes at the end, and the listener the module attaches. The Lean driver checks membership in the model. Non-trivial: >= 4 operations.")
+    assumptions = ["errgroup (first error wins, Wait returns after every function returned) and channel semantics are assumed; failures are spaced by 2 ms so that errgroup sees "
+                   "them in the scripted order"]
+
+
 WS = " \t\r\n"
 
 
@@ -602,4 +616,4 @@ class C13(Prop):
         return "%s/%s" % (case.get("from"), out_of((impl or {}).get("prod"))[0])
 
 
-PROPS = {p.id: p for p in [C01(), C02(), C03(), C04(), C05(), C06(), C07(), C09(), C11(), C12(), C13(), C17(), C18(), C20()]}
+PROPS = {p.id: p for p in [C01(), C02(), C03(), C04(), C05(), C06(), C07(), C09(), C11(), C12(), C13(), C16(), C17(), C18(), C20()]}
